@@ -5,11 +5,26 @@ from harness.props import engine_common as ec
 
 ID = "C05"
 PROP_FILE = "Props/C05.v"
-THEOREMS = ["C05_numbering_partial", "C05_counts_exact_outside_b", "C05_interruptions_never_rolled_back"]
-COQ_IMPORTS = dc.COQ_IMPORTS
-RULE = dc.RULE
+THEOREMS = ["C05_numbering_partial", "C05_counts_exact_outside_b", "C05_interruptions_never_rolled_back",
+            "C05_numbering_exact", "C05_successive_events", "C05_checkpoint_protects", "C05_counts_exact"]
+COQ_IMPORTS = dc.COQ_IMPORTS + "\nFrom BV Require Engine.DocMon2."
+RULE = dc.RULE + (" || C05: the model's trace of every case is also run through the refined monitor Engine/DocMon2.v "
+                  "(checkpoint snapshot of the counters)")
 cases = dc.cases
-coq_term = dc.coq_term
+
+
+def coq_term(case, obs):
+    """dc.coq_term (model == implementation, DocMon verdict == Python mirror) and the refined monitor accepts the trace"""
+    if obs.get("errors") or case.get("oracle_only"):
+        return None
+    try:
+        e = dc.engine_encode.Enc(case, obs).encode()
+    except dc.engine_encode.Unsupported:
+        return None
+    behind = "true" if dc.mon(case, obs)["behind"] else "false"
+    return ("(check_docs %s %s %s %s %s %s %s %s && DocMon2.docs_ok %s (model_steps %s %s %s %s %s %s))%%bool"
+            % (e["tapes"], e["ledger"], e["paus"], e["stag"], e["rec"], e["evs"], e["obs"], behind,
+               e["rec"], e["tapes"], e["ledger"], e["paus"], e["stag"], e["rec"], e["evs"]))
 
 
 def oracle(case, obs):
